@@ -128,6 +128,8 @@ def build():
             && (salts matches Some(sl) ==> forall|m: int| 0 <= m < sl@.len() ==> old(circuit).has_all(#[trigger] sl@[m]@))''')
     v.requires('boolean_index_bits', 'forall|k: int| 0 <= k < index_bits@.len() ==> is_bool(old(circuit).val(#[trigger] index_bits@[k]))')
     v.ensures('frame', 'final(circuit).extends(old(circuit))')
+    # native check_widths (p3-merkle-tree mmcs/geometry.rs): the leaf hash flattens the rows of one height into one stream, so a digest match does not pin where one row ends
+    v.ensures('H_every_opened_row_has_the_width_of_its_matrix', 'ret is Ok ==> forall|i: int| 0 <= i < dimensions@.len() ==> (#[trigger] opened_extension_values@[i])@.len() == dimensions@[i].width')
     v.ensures('rejects_mismatched_batch_sizes', 'ret is Ok ==> dimensions@.len() == opened_extension_values@.len() && (salts matches Some(sl) ==> sl@.len() == opened_extension_values@.len())')
     v.ensures('asserts_the_native_batch_opening_relation',
               '''ret is Ok ==> ({
